@@ -147,7 +147,7 @@ def plan_c05(pid, rng, tier, maxn=None):
     ev.append({"at": t0, "kind": "faults", "delay": 1, "jitter": rng.choice([10, f["pt"]]), "loss": rng.choice([0.05, 0.2, 0.5]),
                "dup": rng.choice([0, 0.2]), "cut": rng.choice([0, 0.3])})
     down, left = set(), set()
-    directed = pid % 4
+    directed = pid % 5
     if directed == 0:
         # announcements missed by everybody: datagrams are blacked out for a while (streams still work, so the
         # TCP fallback keeps every probe succeeding and nobody is suspected) while a member updates its metadata;
@@ -161,7 +161,7 @@ def plan_c05(pid, rng, tier, maxn=None):
         ev.append({"at": at + 20, "kind": "update", "node": owner, "meta": "m-%s-late" % owner, "timeout": 3000})
         ev.append(dict(base, at=at + 5 * f["pi"]))
         left.add(owner)      # (kept out of the random crashes, leaves and updates below)
-    elif directed == 2 and n >= 3:
+    elif directed == 1 and n >= 3:
         # a member leaves, its process goes away, it is forgotten (reaped), and it comes back under the same name and address
         lv = rng.choice(names[1:])
         at = t0 + rng.randrange(0, 3000)
@@ -172,7 +172,21 @@ def plan_c05(pid, rng, tier, maxn=None):
         ev.append({"at": at + 2500 + away + 150, "kind": "join", "node": lv, "to": rng.choice([x for x in names if x != lv])})
         dur = max(dur, 3000 + 2500 + away + 2000)
         left.add(lv)
-    for k in range(rng.randint(1, 8) if directed not in (0, 2) else rng.randint(0, 2)):
+    elif directed == 2:
+        # a member crashes, is declared dead by everybody, the announcements die down, and it comes back on the same
+        # address with its incarnation starting over - while the others remember the dead for a long time
+        # (GossipToTheDeadTime 1 h): only what they tell it in a push/pull makes it refute its own death
+        plan["gossipDead"] = 3600000
+        vic = rng.choice(names[1:])
+        at = t0 + rng.randrange(0, 3000)
+        back = at + detect_bound(fam, n, 11) + 3000
+        ev[-1].update(loss=0.05, jitter=10, cut=0)
+        ev.append({"at": at, "kind": "crash", "node": vic})
+        ev.append({"at": back, "kind": "restart", "node": vic})
+        ev.append({"at": back + 150, "kind": "join", "node": vic, "to": rng.choice([x for x in names if x != vic])})
+        dur = max(dur, back - t0 + 3000)
+        left.add(vic)
+    for k in range(rng.randint(1, 8) if directed not in (0, 1, 2) else rng.randint(0, 2)):
         at = t0 + rng.randrange(0, dur)
         kind = rng.choice(["partition", "partition", "crash", "crash", "leave", "update"])
         nm = rng.choice(names)
